@@ -310,7 +310,13 @@ class Encoder(Coder):
                 values[idx] = value
 
             min_value, max_value = state.minmax(values)
+            if max_value > NUMERIC_MISSING_VALUES[nbits_min_value]:
+                raise PyBufrKitError('{}: value does not fit into {} bits'.format(descriptor, nbits_min_value))
             nbits_diff = nbits_for_uint(max_value - min_value)
+            if nbits_min_value > 1 and min_value == NUMERIC_MISSING_VALUES[nbits_min_value]:
+                # Every value that is present coincides with the all-ones
+                # pattern, i.e. the whole column is missing by definition.
+                nbits_diff = 0
             # Now subtract the minimum from the values
             for idx, value in enumerate(values):
                 if value is None:
@@ -393,7 +399,13 @@ class Encoder(Coder):
             nbits_diff = 0
         else:
             min_value, max_value = state.minmax(values)
+            if max_value > NUMERIC_MISSING_VALUES[nbits_min_value]:
+                raise PyBufrKitError('{}: value does not fit into {} bits'.format(descriptor, nbits_min_value))
             nbits_diff = nbits_for_uint(max_value - min_value)
+            if nbits_min_value > 1 and min_value == NUMERIC_MISSING_VALUES[nbits_min_value]:
+                # Every value that is present coincides with the all-ones
+                # pattern, i.e. the whole column is missing by definition.
+                nbits_diff = 0
             # Subtract the minimum from the values
             for idx, value in enumerate(values):
                 if value is None:
